@@ -375,9 +375,37 @@ ledger_tryopen (char **tok, int ntok)
 		}
 }
 
+/* ledger fsize <bytes|off>: RLIMIT_FSIZE for this process (SIGXFSZ ignored), so that write () on a regular file fails with EFBIG beyond
+** <bytes> -- a genuine OS error on the path / descriptor routes and on the codec's temporary file.  `off` restores the limit.
+** ledger closefd hN: closes the descriptor handle hN works on behind its back (the caller of sf_open_fd (.., close_desc = 0) closing its own
+** descriptor early): every later read / write / seek / close of the library fails with EBADF. */
+#include <sys/resource.h>
+static struct rlimit fsize_saved ;
+static int fsize_have ;
+
+static void
+ledger_fsize (char **tok, int ntok)
+{	struct rlimit rl ;
+	if (ntok < 3) { printf ("bad-op\n") ; return ; }
+	if (!fsize_have) { getrlimit (RLIMIT_FSIZE, &fsize_saved) ; fsize_have = 1 ; }
+	signal (SIGXFSZ, SIG_IGN) ;
+	rl = fsize_saved ;
+	if (strcmp (tok [2], "off")) rl.rlim_cur = (rlim_t) atoll (tok [2]) ;
+	printf ("ok fsize=%s ret=%d\n", tok [2], setrlimit (RLIMIT_FSIZE, &rl)) ;
+}
+
+static void
+ledger_closefd (const char *hname)
+{	SF_PRIVATE *psf = psf_of (hname) ;
+	if (psf == NULL || psf->virtual_io || psf->file.filedes < 0) { printf ("ok closefd=none\n") ; return ; }
+	printf ("ok closefd=%d\n", close (psf->file.filedes)) ;
+}
+
 void
 op_ledger (char **tok, int ntok)
-{	if (ntok >= 2 && !strcmp (tok [1], "begin")) ledger_begin () ;
+{	if (ntok >= 3 && !strcmp (tok [1], "fsize")) ledger_fsize (tok, ntok) ;
+	else if (ntok >= 3 && !strcmp (tok [1], "closefd")) ledger_closefd (tok [2]) ;
+	else if (ntok >= 2 && !strcmp (tok [1], "begin")) ledger_begin () ;
 	else if (ntok >= 3 && !strcmp (tok [1], "peek")) ledger_peek (tok [2]) ;
 	else if (ntok >= 2 && !strcmp (tok [1], "end")) ledger_end () ;
 	else if (ntok >= 4 && !strcmp (tok [1], "rsrc")) ledger_rsrc (tok, ntok) ;
